@@ -50,19 +50,6 @@ def sig_cr_boundary(case, params):
     return any(0 < c < len(s) and s[c - 1] == 13 and s[c] == 10 for c in _cuts(case))
 
 
-def sig_lax_cr_after_last_chunk(case, params):
-    """Response (lax) parser: a read boundary right after the LF of a last-chunk line ("0" CR LF), the next byte a CR."""
-    if case.get("parser") != "response":
-        return False
-    s = bytes.fromhex(case["stream"])
-    for c in _cuts(case):
-        if 0 < c < len(s) and s[c - 1] == 10 and s[c] == 13:
-            line = s[:c - 1].rsplit(b"\n", 1)[-1].split(b";", 1)[0].strip()
-            if line and line.strip(b"0") == b"":
-                return True
-    return False
-
-
 def sig_lax_double_cr(case, params):
     """Response (lax) parser: a read boundary inside a run of CRs before LF after chunk data."""
     if case.get("parser") != "response":
@@ -71,8 +58,7 @@ def sig_lax_double_cr(case, params):
     return any(0 < c < len(s) and s[c - 1] == 13 and s[c] in (13, 10) for c in _cuts(case)) and b"\r\r" in s
 
 
-SIGNATURES = {"cr_boundary_limit": sig_cr_boundary, "lax_double_cr": sig_lax_double_cr,
-              "lax_cr_after_last_chunk": sig_lax_cr_after_last_chunk}
+SIGNATURES = {"cr_boundary_limit": sig_cr_boundary, "lax_double_cr": sig_lax_double_cr}
 
 COMPLETIONS = [b"\r\n\r\n", b"\r\n0\r\n\r\n", b"\r\n\r\n0\r\n\r\n", b"\n\r\n\r\n"]
 
